@@ -29,6 +29,14 @@ def gen_cases(tier, seed):
             yield {"prop": PROP, "id": "s%d" % n, "batch": "late_shadow", "gen": {"family": "lateshadow", "spec": spec, "unordered": False},
                    "envs": modelcheck.gen_envs(rng, 2)}
             n += 1
+    # owner's last word: procedure-style owners ending in an assignment, tail self-calls (eight templates x sampled constants)
+    for t in gens.ownerend.KINDS:
+        for r in range(3):
+            rng = Rng(derive(seed, PROP, "ownerend", t, r))
+            spec = {"t": t, "a": rng.range(1, 9), "b": rng.range(2, 6), "n": rng.range(2, 4)}
+            yield {"prop": PROP, "id": "o%d" % n, "batch": "owner_end", "gen": {"family": "ownerend", "spec": spec, "unordered": False},
+                   "envs": modelcheck.gen_envs(rng, 2)}
+            n += 1
     total = 4000 if tier == "quick" else 48000
     for i in range(total):
         rng = Rng(derive(seed, PROP, "hist", i))
